@@ -189,7 +189,96 @@ pub fn exec(op: &str, a: &[u64]) -> Result<Outcome, String> {
             }
             Ok(o)
         }
+        "dictload" => {
+            let bytes = r.bytes()?;
+            let cps = r.nats()?;
+            r.end()?;
+            match std::str::from_utf8(&bytes) {
+                Ok(t) => {
+                    if t.chars().map(|c| c as u64).collect::<Vec<_>>() != cps {
+                        return Err("code points in request are not the decoding of the bytes".into());
+                    }
+                }
+                Err(_) => {
+                    if !cps.is_empty() {
+                        return Err("code points given for a file that is not UTF-8".into());
+                    }
+                }
+            }
+            let p = format!("{}/load.tsv", tmp());
+            std::fs::write(&p, &bytes).map_err(|e| e.to_string())?;
+            let d = match Dictionary::load(&p) {
+                Ok(d) => d,
+                Err(_) => return Ok(Outcome::new(err("load"))),
+            };
+            let it = items(&d);
+            let mut v = vec![d.freq_sum as u64, it.len() as u64];
+            for (k, f) in &it {
+                enc_str(&mut v, k);
+                v.push(*f as u64);
+            }
+            let mut o = Outcome::new(ok(v));
+            o.check(d.len() == it.len(), "len() is not the number of entries");
+            o.check(d.freq_sum == it.iter().map(|x| x.1).sum::<usize>(), "freq_sum is not the total of the frequencies");
+            save_load_oracle(&mut o, &d, &it);
+            Ok(o)
+        }
+        "dictsave" => {
+            // entries (distinct keys) and the file a save of that dictionary produced in the generating run; the
+            // order among equally frequent entries is the hash order of that object, so the recorded file is
+            // judged by the model and this run's own save by the oracle
+            let es: Vec<(String, usize)> = r.list(|r| Ok((r.string()?, r.usize()?)))?;
+            let _file = r.nats()?;
+            r.end()?;
+            let p = format!("{}/resave-src.tsv", tmp());
+            {
+                let mut f = std::fs::File::create(&p).map_err(|e| e.to_string())?;
+                for (k, v) in &es {
+                    writeln!(f, "{k}\t{v}").map_err(|e| e.to_string())?;
+                }
+            }
+            let d = Dictionary::load(&p).map_err(|e| e.to_string())?;
+            let it = items(&d);
+            let mut want = es.clone();
+            want.sort();
+            if it != want {
+                return Err("entries of the request cannot be loaded as a dictionary".into());
+            }
+            let mut o = Outcome::new("accept".to_string());
+            save_load_oracle(&mut o, &d, &it);
+            Ok(o)
+        }
         _ => Err(format!("unknown op {op}")),
+    }
+}
+
+/// the saved text of a dictionary
+fn saved_text(d: &Dictionary) -> Result<Vec<u8>, String> {
+    let p = format!("{}/saved.tsv", tmp());
+    d.save(&p).map_err(|e| e.to_string())?;
+    std::fs::read(&p).map_err(|e| e.to_string())
+}
+
+/// C20: save followed by load reproduces the dictionary; the file has one `key<TAB>value` line per entry, most
+/// frequent first
+fn save_load_oracle(o: &mut Outcome, d: &Dictionary, it: &[(String, usize)]) {
+    let p = format!("{}/saved.tsv", tmp());
+    match d.save(&p).and_then(|_| Dictionary::load(&p)) {
+        Ok(d3) => o.check(items(&d3) == it && d3.freq_sum == d.freq_sum, "load(save(d)) != d"),
+        Err(_) => o.check(false, "save / load failed"),
+    }
+    if let Ok(text) = std::fs::read_to_string(&p) {
+        let mut lines: Vec<&str> = text.split('\n').collect();
+        o.check(lines.pop() == Some(""), "saved file does not end with a line feed");
+        let mut want: Vec<String> = it.iter().map(|(k, v)| format!("{k}\t{v}")).collect();
+        let mut got: Vec<String> = lines.iter().map(|l| l.to_string()).collect();
+        let vals: Vec<usize> = got.iter().filter_map(|l| l.rsplit('\t').next().and_then(|x| x.parse().ok())).collect();
+        o.check(vals.len() == got.len() && vals.windows(2).all(|w| w[0] >= w[1]), "saved entries are not in descending frequency");
+        want.sort();
+        got.sort();
+        o.check(want == got, "saved lines are not exactly the entries");
+    } else {
+        o.check(false, "saved file is not UTF-8");
     }
 }
 
@@ -205,6 +294,63 @@ fn rand_line(ctx: &mut Ctx) -> String {
         s.push_str(WORDS[ctx.rng.random_range(0..WORDS.len())]);
     }
     s
+}
+
+fn rand_dict_file(ctx: &mut Ctx) -> Vec<u8> {
+    const KEYS: &[&str] = &["a", "ab", "b", "\u{e4}b", "a b", "<bow> a b", "a ", "a\u{a0}", "x\ry", "\u{4e2d}", "don't", "A", "c", "d", "e"];
+    const VALS: &[&str] = &["1", "2", "2", "3", "10", "0", "+3", "007", "4294967296"];
+    const BADVALS: &[&str] = &["", "-1", "1.5", " 5", "5 x", "0x10", "18446744073709551616", "\u{661}", "+", "1_000"];
+    let mut out: Vec<u8> = vec![];
+    if ctx.rng.random_range(0..40) == 0 {
+        // malformed stream: arbitrary bytes
+        let n = ctx.rng.random_range(0..12);
+        return (0..n).map(|_| [b'a', b'\t', b'1', b'\n', 0xff, 0xc3, 0xa4, b' '][ctx.rng.random_range(0..8)]).collect();
+    }
+    let n = ctx.rng.random_range(0..=7);
+    let bad = ctx.rng.random_range(0..6) == 0;
+    let bad_at = ctx.rng.random_range(0..=7);
+    for i in 0..n {
+        let k = KEYS[ctx.rng.random_range(0..KEYS.len())];
+        let v = if bad && i == bad_at { BADVALS[ctx.rng.random_range(0..BADVALS.len())] } else { VALS[ctx.rng.random_range(0..VALS.len())] };
+        if ctx.rng.random_range(0..12) == 0 {
+            out.extend([" ", "\u{3000}", "\t"][ctx.rng.random_range(0..3)].as_bytes());
+        }
+        out.extend(k.as_bytes());
+        out.extend(match ctx.rng.random_range(0..40) { 0 => "\t\t", 1 => " ", 2 => "", _ => "\t" }.as_bytes());
+        out.extend(v.as_bytes());
+        if ctx.rng.random_range(0..12) == 0 {
+            out.extend([" ", "\u{a0}", "\t"][ctx.rng.random_range(0..3)].as_bytes());
+        }
+        if i + 1 < n || ctx.rng.random_bool(0.7) {
+            out.extend(match ctx.rng.random_range(0..20) { 0 => "\r\n", 1 => "\n\n", _ => "\n" }.as_bytes());
+        }
+    }
+    out
+}
+
+fn emit_dictfile(ctx: &mut Ctx, file: &[u8]) {
+    let mut v = vec![];
+    enc_bytes(&mut v, file);
+    match std::str::from_utf8(file) {
+        Ok(t) => enc_str(&mut v, t),
+        Err(_) => v.push(0),
+    }
+    ctx.case("dictload", &v);
+    // the save of the loaded dictionary, as observed in this run
+    let p = format!("{}/gen-load.tsv", tmp());
+    std::fs::write(&p, file).unwrap();
+    let res = std::panic::catch_unwind(|| Dictionary::load(&p).ok().map(|d| (items(&d), saved_text(&d))));
+    if let Ok(Some((it, Ok(saved)))) = res {
+        if let Ok(text) = String::from_utf8(saved) {
+            let mut v = vec![it.len() as u64];
+            for (k, f) in &it {
+                enc_str(&mut v, k);
+                v.push(*f as u64);
+            }
+            enc_str(&mut v, &text);
+            ctx.case("dictsave", &v);
+        }
+    }
 }
 
 pub fn run_c20(ctx: &mut Ctx) {
@@ -272,6 +418,16 @@ pub fn run_c20(ctx: &mut Ctx) {
             None => v.push(0),
         }
         ctx.case("closest", &v);
+        // dictionary files: load, and the save of what was loaded
+        let file = rand_dict_file(ctx);
+        emit_dictfile(ctx, &file);
+    }
+    if ctx.first_shard() {
+        for f in [&b""[..], b"\n", b"a\t1", b"a\t1\n", b"a\t1\r\n", b"a\t1\n\n", b" a\t1 \n", b"a \t1", b"a\t 1", b"a\t+1", b"a\t-1", b"a\t\t1", b"\t1", b"a\t",
+            b"a", b"a\t18446744073709551615", b"a\t18446744073709551616", b"a\t01\na\t2", b"a b\t1\nb\t1\nc\t1\nd\t1\ne\t2", b"\xff\t1", b"a\t1\n\xc3", b"\xc2\xa0a\xc2\xa0\t3\xe3\x80\x80",
+            b"a\x0bb\t1", b"a\rb\t1", b"\xef\xbb\xbfa\t1"] {
+            emit_dictfile(ctx, f);
+        }
     }
     std::fs::remove_dir_all(tmp()).ok();
 }
